@@ -6,6 +6,10 @@ use vkit::problem::{self, status_name};
 use vkit::{Ctx, Rng};
 
 pub fn family_g(rng: &mut Rng) -> gen::Planted {
+    family_g_tagged(rng).0
+}
+
+pub fn family_g_tagged(rng: &mut Rng) -> (gen::Planted, String) {
     let mut o = GenOpts { kinds: gen::all_kinds(), ..Default::default() };
     o.nmax = *rng.choose(&[5, 15, 30, 60]);
     o.mmax = *rng.choose(&[10, 30, 80, 150]);
@@ -14,7 +18,8 @@ pub fn family_g(rng: &mut Rng) -> gen::Planted {
     let (lo, hi) = *rng.choose(&[(-1.0, 1.0), (-1.0, 1.0), (-2.0, 2.0), (0.0, 3.0), (-3.0, 0.0)]);
     o.mag_lo = lo;
     o.mag_hi = hi;
-    gen::planted_wellposed(rng, &o)
+    let tag = format!("mag[{lo},{hi}]_n{}_m{}", o.nmax, o.mmax);
+    (gen::planted_wellposed(rng, &o), tag)
 }
 
 pub fn run(ctx: &mut Ctx) {
@@ -26,7 +31,10 @@ pub fn run(ctx: &mut Ctx) {
         }
         ctx.begin(wl, case);
         let mut rng = Rng::for_case(ctx.seed, "C06/family_G", case);
-        let pl = family_g(&mut rng);
+        let (pl, tag) = family_g_tagged(&mut rng);
+        if std::env::var("VERIF_C06_DEBUG").is_ok() {
+            ctx.bump(&format!("dbgN_{tag}"));
+        }
         let st = gen::default_settings();
         let res = match problem::run(&pl.problem, &st) {
             Ok(r) => r,
@@ -53,6 +61,9 @@ pub fn run(ctx: &mut Ctx) {
             }
         } else {
             ctx.bump("not_solved");
+            if std::env::var("VERIF_C06_DEBUG").is_ok() {
+                ctx.bump(&format!("dbgF_{tag}"));
+            }
             for k in &kinds {
                 ctx.bump(&format!("stratum_{k}_not_solved"));
             }
